@@ -74,6 +74,12 @@ fn u(c: T) -> T {
 fn b(c: T, d: T) -> T {
     node2("b", c, d)
 }
+fn k3(a: T, b2: T, c: T) -> T {
+    T { op: "k", args: vec![Arg::Child(Box::new(a)), Arg::Child(Box::new(b2)), Arg::Child(Box::new(c))] }
+}
+fn w(x: Name, c: T) -> T {
+    T { op: "w", args: vec![Arg::Slot(x), Arg::Child(Box::new(c))] }
+}
 fn lam(x: Name, c: T) -> T {
     bind1("lam", x, c)
 }
@@ -340,6 +346,25 @@ pub fn alphabet(name: &str) -> Vec<Op> {
             Op::Add(lam(100, q4(0, 1, 2, 100))),
             Op::Add(u(q4(0, 1, 2, 3))),
         ],
+        "TERN" => {
+            // a ternary operator over classes (children that share a slot) and an operator with a public slot of its own
+            // next to a child
+            let d = || T { op: "d", args: vec![] };
+            vec![
+                Op::Add(k3(var(0), var(0), var(0))),
+                Op::Add(k3(var(0), var(1), var(0))),
+                Op::Add(k3(h(0), var(0), var(1))),
+                Op::Add(u(var(0))),
+                Op::Union(h(0), var(0)),
+                Op::Union(k3(var(0), var(1), var(2)), t3(0, 1, 2)),
+                Op::Add(w(0, cc())),
+                Op::Add(w(0, d())),
+                Op::Union(cc(), d()),
+                Op::Add(w(0, h(0))),
+                Op::Add(w(0, h(1))),
+                Op::Union(w(0, h(1)), f(0, 1)),
+            ]
+        }
         "CROSS" => vec![
             // two parents in different classes that repeat a slot of a (to be) symmetric child; they become congruent only
             // later, through a merge of their children (the alignment of their slots depends on canonical variants)
